@@ -46,6 +46,11 @@ CLAIMS = {
    note="Trusted: Coq kernel, extraction, serde derive semantics for unit variants (library contract, exercised by the arena), hand model of value_enums.rs/NormalizedVariant, C09's to_rust_type_name model for variant names. Not covered: nullable enums; non-ASCII values.",
    technique="Coq proof (fold invariant: accepted strings = declared texts) with CLI/syn and compiled-code (arena) correspondence, bounded-exhaustive value lists",
    design="§4 C15", engine="coq+cli+arena"),
+ "C02": dict(
+   text="Coq theorems (closed under the global context) on the tier-A fragment (string/integer/boolean, arrays, nested objects with required/optional/nullable members, additionalProperties false), by size induction over schemas: every document valid against the schema is accepted by the emitted type (C02_accepts); re-serialising the decoded value yields a document that is valid again and carries the same value under the same wire name for every declared member and array element, absent and null being interchangeable — outside the recorded class required+nullable (C02_roundtrip); missing required members, wrong JSON types and unknown members under additionalProperties:false are rejected (C02_rejects_*). The required+nullable class is refuted by a computed witness and kept as two known findings. Tie: correspondence — types emitted by the CLI are compiled in the arena and serde_json from_str/to_string is compared with the extracted dec/enc on schema-directed instances and near-miss mutants; the model's validity verdict is cross-checked with python jsonschema (Draft 2020-12).",
+   note="Trusted: Coq kernel, extraction, serde derive semantics (library contract exercised by the arena), hand model of which members become Option / skip_serializing_none / deny_unknown_fields, python jsonschema as independent validity oracle. Outside the fragment (not modelled): formats, f64 numbers, maps, unions (C14), enums (C15), defaults (C17); $ref indirection is transparent for the codec.",
+   technique="Coq proof (size induction over nested schemas; accept / round-trip / reject theorems) with compiled-code (arena) correspondence and jsonschema cross-validation",
+   design="§4 C02", engine="coq+cli+arena"),
 }
 
 checks = []
